@@ -46,7 +46,7 @@ def with_homographs(T, rnd, p=.3):
     return T[:i] + new + T[i:]
 
 
-def general_graph(rnd, max_nodes=7, bnodes=True, rich_literals=True, inst_prop=M.RDF_TYPE, odd_names=False):
+def general_graph(rnd, max_nodes=7, bnodes=True, rich_literals=True, inst_prop=M.RDF_TYPE, odd_names=False, hierarchy=True):
     """2..max_nodes subject nodes (<= 25 % blank), 1-3 classes, nodes in 0-3 classes, 1-4 properties in two
     namespaces (one a prefix of the other), objects: typed / untyped IRIs, blank nodes, literals; 0-3 values"""
     nn = rnd.randint(2, max_nodes)
@@ -77,7 +77,7 @@ def general_graph(rnd, max_nodes=7, bnodes=True, rich_literals=True, inst_prop=M
                 else:
                     o = _lit(rnd, rich_literals)
                 T.add((n, p, o))
-    if rnd.random() < .25:      # the classes are described in the data too (typed with a meta-class, linked from / to nodes)
+    if hierarchy and rnd.random() < .25:      # the classes are described in the data too (typed with a meta-class, linked from / to nodes)
         for c in classes:
             if rnd.random() < .7:
                 T.add((M.iri(c), inst_prop, M.iri(EX + "Kind")))
